@@ -174,6 +174,14 @@ class Resolver:
                     ts = self.annotation_types(tgt.module, tgt.node.returns)
                     if ts:
                         return ts
+                    rts = []
+                    for r in ast.walk(tgt.node):
+                        if isinstance(r, ast.Return) and r.value is not None and not (isinstance(r.value, ast.Constant) and r.value.value is None):
+                            for t in self.expr_types(tgt, r.value, None, _depth + 1):
+                                if isinstance(t, ClassInfo) and t not in rts:
+                                    rts.append(t)
+                    if rts:
+                        return rts
                     if tgt.is_classmethod and tgt.cls is not None:
                         # cls(...) factories
                         for r in ast.walk(tgt.node):
@@ -206,6 +214,25 @@ class Resolver:
                 return [r]
             if isinstance(r, str):
                 return [r]
+            # a local bound to (a conditional choice of) internal functions
+            g = fi
+            while g is not None:
+                if f.id in flow_of(g.node).local_names() and f.id not in g.params:
+                    outs = []
+                    for ds in flow_of(g.node).defs_at.values():
+                        for d in ds:
+                            if d.name == f.id and d.kind == "assign" and d.value is not None and not d.path:
+                                cands = [d.value]
+                                if isinstance(d.value, ast.IfExp):
+                                    cands = [d.value.body, d.value.orelse]
+                                for c in cands:
+                                    if isinstance(c, (ast.Name, ast.Attribute)) and dotted(c):
+                                        r2 = prog.resolve_name(mod, dotted(c))
+                                        if isinstance(r2, (FuncInfo, ClassInfo)):
+                                            outs.append(r2)
+                    if outs:
+                        return outs
+                g = g.parent
             # a parameter / local callable
             g = fi
             while g is not None:
